@@ -40,6 +40,9 @@ type SeqModel struct {
 	CraftN, CraftTasks, CraftEpics int
 	CraftLegacy                    bool
 	SimSample                      int // simulation only: successors drawn per step (0 = all)
+	// state x command engine: execute only these commands of the alphabet from each
+	// state (nil = all); the histories that lead to the states are executed anyway
+	AlphaOnly []string
 }
 
 func (m SeqModel) cfg(dev string, emit string, props, invs []string) string {
